@@ -378,11 +378,6 @@ def run_check(prop, tier, seed, replay=None, jobs=None, n_cases=None, write_evid
         exit_code = 1
         nviol += 1
 
-    if machinery and not viol:
-        for origin, h, res, payload in machinery[:3]:
-            sys.stderr.write('MACHINERY ERROR (%s): %s\n' % (origin, res.error))
-        exit_code = 2
-
     seen_known = set()
     reported = 0
     for origin, h, res, payload in viol:
@@ -407,6 +402,12 @@ def run_check(prop, tier, seed, replay=None, jobs=None, n_cases=None, write_evid
         # a known finding is announced whenever its witness still fails (corpus) or it was met
         if f['id'] in seen_known:
             out_lines.append('KNOWN-FINDING: property=%s %s' % (prop.id, f['what']))
+    if machinery and exit_code == 0:
+        # cases the machinery could not evaluate, and no violation to report: the check is broken, not passed
+        # (known findings do not hide them)
+        for origin, h, res, payload in machinery[:3]:
+            sys.stderr.write('MACHINERY ERROR (%s): %s\n' % (origin, res.error))
+        exit_code = 2
 
     searched = 0
     model_cex = None
